@@ -392,11 +392,14 @@ Definition lf_split_filter (guard : bool) (q : bytes) : lf_m lf_filter :=
 Definition lf_c_find_attr (r : lf_res) (name : bytes) : option lf_attr :=
   lf_find_attr (lf_attrs r) name.
 
-(* the per-resource filter test inside RESOURCES_ITER: LfVal true = print it *)
-Definition lf_select (guard : bool) (f : lf_filter) (r : lf_res) : lf_m bool :=
+(* the per-resource filter test inside RESOURCES_ITER: LfVal true = print it.
+   [term] = the bytes that follow a path / an attribute value inside its memory object: [0]
+   for strings stored by coap_new_str_const (the library's copy), [] for an exact-size string
+   handed over by the application (COAP_RESOURCE_FLAGS_RELEASE_URI, COAP_ATTR_FLAGS_RELEASE_NAME, COAP_ATTR_FLAGS_RELEASE_VALUE) *)
+Definition lf_select (guard : bool) (term : bytes) (f : lf_filter) (r : lf_res) : lf_m bool :=
   if len (lf_pname f) =? 0 then LfVal true
   else if lf_uri f then
-    lf_match guard {| lf_obj := lf_path r ++ [0]; lf_at := 0; lf_len := len (lf_path r) |}
+    lf_match guard {| lf_obj := lf_path r ++ term; lf_at := 0; lf_len := len (lf_path r) |}
              (lf_pat f) (lf_prefix f) (lf_substring f)
   else
     match lf_c_find_attr r (lf_pname f) with
@@ -405,7 +408,7 @@ Definition lf_select (guard : bool) (f : lf_filter) (r : lf_res) : lf_m bool :=
       match lf_avalue a with
       | None => LfVal false
       | Some v =>
-        let obj := v ++ [0] in
+        let obj := v ++ term in
         (* if (attr->value->length >= 2 && attr->value->s[0] is a double quote) ; before the repair
            (guard = false) only s[0] was tested *)
         let quoted_r := if guard && (len v <? 2) then Some false
@@ -439,17 +442,17 @@ Definition lf_wk_sep (buflen : Z) (w : lf_wk) : lf_wk :=
           lf_written := lf_written w; lf_subseq := true |}.
 
 (* RESOURCES_ITER body; the result carries the loop state at its end (or at the break) *)
-Fixpoint lf_wk_loop (guard : bool) (buflen : Z) (f : option lf_filter) (rs : list lf_res)
+Fixpoint lf_wk_loop (guard : bool) (term : bytes) (buflen : Z) (f : option lf_filter) (rs : list lf_res)
          (w : lf_wk) : lf_m lf_wk :=
   match rs with
   | [] => LfVal w
   | r :: tl =>
-    if lf_beq (lf_path r) lf_wk_path then lf_wk_loop guard buflen f tl w
+    if lf_beq (lf_path r) lf_wk_path then lf_wk_loop guard term buflen f tl w
     else
-      match (match f with None => LfVal true | Some fl => lf_select guard fl r end) with
+      match (match f with None => LfVal true | Some fl => lf_select guard term fl r end) with
       | LfOob => LfOob
       | LfFuel => LfFuel
-      | LfVal false => lf_wk_loop guard buflen f tl w
+      | LfVal false => lf_wk_loop guard term buflen f tl w
       | LfVal true =>
         let w1 := lf_wk_sep buflen w in
         let left := buflen - lf_wpos w1 in
@@ -459,7 +462,7 @@ Fixpoint lf_wk_loop (guard : bool) (buflen : Z) (f : option lf_filter) (rs : lis
                    lf_written := lf_written w1; lf_subseq := true |}
         | (LfDone cnt _, stored, total, off') =>
           (* p += COAP_PRINT_OUTPUT_LENGTH(result); written += left *)
-          lf_wk_loop guard buflen f tl
+          lf_wk_loop guard term buflen f tl
             {| lf_wrev := rev stored ++ lf_wrev w1; lf_wpos := lf_wpos w1 + cnt; lf_woff := off';
                lf_written := lf_written w1 + total; lf_subseq := true |}
         end
@@ -470,7 +473,7 @@ Fixpoint lf_wk_loop (guard : bool) (buflen : Z) (f : option lf_filter) (rs : lis
 Record lf_ret := { lf_rstatus : lf_status; lf_rbytes : bytes; lf_rtotal : Z }.
 
 (* coap_print_wellknown_lkd(context, buf, &buflen, offset, query_filter) *)
-Definition lf_print_wellknown_g (guard : bool) (rs : list lf_res) (filter : option bytes)
+Definition lf_print_wellknown_g (guard : bool) (term : bytes) (rs : list lf_res) (filter : option bytes)
            (off buflen : Z) : lf_m lf_ret :=
   let fl := match filter with
             | None => LfVal None
@@ -481,7 +484,7 @@ Definition lf_print_wellknown_g (guard : bool) (rs : list lf_res) (filter : opti
   | LfOob => LfOob
   | LfFuel => LfFuel
   | LfVal f =>
-    match lf_wk_loop guard buflen f rs
+    match lf_wk_loop guard term buflen f rs
             {| lf_wrev := []; lf_wpos := 0; lf_woff := off; lf_written := 0; lf_subseq := false |} with
     | LfOob => LfOob
     | LfFuel => LfFuel
@@ -491,8 +494,8 @@ Definition lf_print_wellknown_g (guard : bool) (rs : list lf_res) (filter : opti
     end
   end.
 
-(* the code as it is now (both length guards present) *)
-Definition lf_print_wellknown := lf_print_wellknown_g true.
+(* the code as it is now (all length guards present), on strings stored by the library *)
+Definition lf_print_wellknown := lf_print_wellknown_g true [0].
 
 Definition lf_rtotal_of (r : lf_m lf_ret) : option Z :=
   match r with LfVal x => Some (lf_rtotal x) | _ => None end.
